@@ -127,6 +127,7 @@ def profile(geom, lang, seed, add_via="VAdd", decor=False, light=False, m=8, tra
 
 TOTALS = ["behaviours", "steps", "checked_steps", "text_queries", "text_nontrivial", "scores", "scores_multi", "fusion_searches",
           "alpha0", "alpha1", "alpha_half", "fused_scores", "text_only", "contains_form", "filtered", "small_k", "ties",
+          "alpha_half_small_k_measured", "alpha_half_small_k_differs_from_formula",
           "after_overwrite_or_delete", "div_total"]
 
 
@@ -160,6 +161,9 @@ def val(v):
     return "bag" + "".join("t%d^%d" % (i + 1, tf) for i, tf in enumerate(tfs_of(v)) if tf) if v else "bag{}"
 
 
+known_hits = {}
+
+
 def judge(chk, divs, behs, prof, consts, label):
     by_id = {b["id"]: b for b in behs}
     divs = sorted(divs, key=lambda d: (d.get("step", 0), len(by_id[d["id"]]["steps"]) if d["id"] in by_id else 99, d["id"]))
@@ -168,7 +172,9 @@ def judge(chk, divs, behs, prof, consts, label):
         beh = by_id.get(div["id"])
         kf = vlib.match_known(PROP, div, beh)
         if kf:
-            chk.known.append((kf["id"], kf["what"]))
+            known_hits[kf["id"]] = known_hits.get(kf["id"], 0) + 1
+            if known_hits[kf["id"]] == 1:
+                chk.known.append((kf["id"], kf["what"]))
             continue
         dev = (div.get("diff") or [""])[0].split(" ")[0]
         key = (div["kind"], dev)
@@ -236,19 +242,20 @@ def run(tier):
     if quick:
         plans.append(("hist3", dict(BASE, Bags=lit(menu(rng, 3)), MaxOps=3, Pos=pos, QVecs=qv), None,
                       dict(lang=langs[0], add_via="VAdd", decor=False, light=True)))
-        plans.append(("walks", dict(BASE, Bags=lit(menu(rng, 5, with_empty=True)), AddVals="<- c_AddBoth", MaxOps=10, Pos=pos2, QVecs=qv2), (250, 10),
+        plans.append(("hist4_1doc", dict(BASE, DocSeq="<- c_Docs1", Bags=lit(menu(rng, 2)), AddVals="<- c_AddBoth", MaxOps=4, Pos=pos2, QVecs=qv2), None,
+                      dict(lang=langs[1], add_via="VAddBatch", decor=True, light=True)))
+        plans.append(("walks", dict(BASE, Bags=lit(menu(rng, 4, with_empty=True)), AddVals="<- c_AddBoth", MaxOps=10, Pos=pos2, QVecs=qv2), (250, 10),
                       dict(lang=langs[1], add_via="VAddBatch", decor=True, light=False, m=16)))
     else:
         plans.append(("hist4", dict(BASE, Bags=lit(menu(rng, 3)), MaxOps=4, Pos=pos, QVecs=qv), None,
                       dict(lang=langs[0], add_via="VAdd", decor=False, light=True)))
-        plans.append(("hist4b", dict(BASE, Bags=lit(menu(rng, 3, with_empty=True)), AddVals="<- c_AddBoth", MaxOps=4, Maint="<- c_MaintRestart",
-                                     Pos=pos2, QVecs=qv2), None,
+        plans.append(("hist5_2docs", dict(BASE, DocSeq="<- c_Docs2", Bags=lit(menu(rng, 2)), MaxOps=5, Pos=pos2, QVecs=qv2), None,
                       dict(lang=langs[1], add_via="VAddBatch", decor=True, light=True)))
-        plans.append(("hist6_2docs", dict(BASE, DocSeq="<- c_Docs2", Bags=lit(menu(rng, 2)), MaxOps=6, Pos=pos, QVecs=qv), None,
+        plans.append(("hist6_1doc", dict(BASE, DocSeq="<- c_Docs1", Bags=lit(menu(rng, 2)), MaxOps=6, Pos=pos, QVecs=qv), None,
                       dict(lang=langs[1], add_via="VAdd", decor=True, light=True)))
         for i in range(4):
             g = GEOMS[(seed + i) % 3]
-            plans.append(("walks%d" % i, dict(BASE, Bags=lit(menu(rng, 5 + i % 2, with_empty=i % 2 == 0)), AddVals="<- c_AddBoth", MaxOps=14,
+            plans.append(("walks%d" % i, dict(BASE, Bags=lit(menu(rng, 4 + i % 2, with_empty=i % 2 == 0)), AddVals="<- c_AddBoth", MaxOps=14,
                                               Pos=g[0], QVecs=g[1]), (1500, 14),
                           dict(lang=langs[i % 2], add_via=["VAdd", "VAddBatch"][i // 2 % 2], decor=i % 2 == 1, light=False, m=16)))
 
@@ -303,6 +310,7 @@ def run(tier):
     chk.cov["binding"] = totals
     chk.cov["families"] = families
     chk.cov["searches_judged_by_tlc"] = ntr
+    chk.cov["known_finding_divergences"] = dict(known_hits)
     for key, least in (("behaviours", 100), ("text_nontrivial", 1000), ("scores_multi", 100), ("alpha_half", 1000), ("text_only", 1000),
                        ("filtered", 100), ("small_k", 100), ("contains_form", 100), ("after_overwrite_or_delete", 100), ("ties", 10)):
         if totals.get(key, 0) < least:
